@@ -832,7 +832,9 @@ input::
                 if t is None:
                     t = cn.impose_at(*to.select_params(self,collapses[k]))
                 else:
-                    t = cn.impose_at(collapses[k],t)
+                    i = tuple(collapses[k])
+                    if hasattr(t, '__len__'): t = [t[j] for j in i] # own target
+                    t = cn.impose_at(i,t)
                 conditions.append(t)
             elif k.startswith('CollapseAs'):
                 t = state[k]
